@@ -65,7 +65,7 @@ type gtree struct {
 }
 
 func newGTree(tr *common.Trace, gn *gateNormalizer, fuse bool) *gtree {
-	e := newEnvWith(tr, envOptions{normalizer: gn, fuse: fuse})
+	e := newEnvWith(tr, envOptions{normalizer: gn, fuse: fuse, quiet: true})
 	t := &gtree{e: e, dirs: map[string]virtual.PrepopulatedDirectory{"root": e.root}}
 	for _, c := range []string{"A", "B"} {
 		d := e.mkdir(e.root, c)
@@ -78,6 +78,8 @@ func newGTree(tr *common.Trace, gn *gateNormalizer, fuse bool) *gtree {
 		e.mkdir(n, "y")
 		t.dirs[c+"e"] = e.mkdir(d, "e")
 	}
+	// (FUSE: registers the notifier that models the kernel)
+	e.probeFUSE("fixture")
 	return t
 }
 
